@@ -237,12 +237,6 @@ def hrun : HState → List HStep → HState
   | s, [] => s
   | s, st :: rest => hrun (hstep s st) rest
 
-/-- the handles of a quiescent state: the current WAL file, one data mapping per live table, the goroutines -/
-def steady (s : HState) : List Handle :=
-  if usable s.db then
-    .walFile s.walNo :: (tabGens s.db).map Handle.tableMmap ++ goroutines s.ticker
-  else []
-
 /-! ## a stand-alone table reader (sstables.SSTableReader on table `gen`) -/
 
 structure RState where
